@@ -88,6 +88,23 @@ class Evaluator:
                 return st
         return None
 
+    def _dunder(self, v, env, name):
+        """The class's own implementation of a protocol method, when `v` is the object the
+        evaluated method runs on and the model does not define the method itself."""
+        if isinstance(v, Record) and v is env.get('self') and name not in type(v).__dict__:
+            mem = self._class_member(name)
+            if isinstance(mem, ast.FunctionDef):
+                return mem
+        return None
+
+    def iterate(self, v, env):
+        mem = self._dunder(v, env, '__iter__')
+        if mem is not None:
+            return list(self.call_function(mem, [], {}, bound_self=v))
+        if isinstance(v, Opaque):
+            raise AnalysisError(f'iteration over an unmodelled value {v}')
+        return list(v)
+
     def call_function(self, fndef, args, kwargs, bound_self=None):
         """Evaluate a helper (module function, method of the class, nested def or lambda)
         with the same intrinsics; a modelled exception propagates to the caller."""
@@ -195,7 +212,7 @@ class Evaluator:
             if isinstance(it, Opaque):
                 raise AnalysisError(f'loop over an unmodelled value in `{text(st)[:50]}`')
             broke = False
-            for v in list(it):
+            for v in self.iterate(it, env):
                 self.assign(st.target, v, env)
                 try:
                     self.block(st.body, env)
@@ -239,6 +256,10 @@ class Evaluator:
                 c = self.expr(t.value, env)
                 if isinstance(c, Opaque):
                     raise AnalysisError(f'del on an unmodelled value in `{text(st)}`')
+                mem = self._dunder(c, env, '__delitem__')
+                if mem is not None and not isinstance(t.slice, ast.Slice):
+                    self.call_function(mem, [self.expr(t.slice, env)], {}, bound_self=c)
+                    continue
                 try:
                     if isinstance(t.slice, ast.Slice):
                         lo = self.expr(t.slice.lower, env) if t.slice.lower else None
@@ -284,7 +305,7 @@ class Evaluator:
                 self.assign(a, b, env)
         elif isinstance(t, ast.Attribute) and isinstance(t.value, ast.Name) and isinstance(env.get(t.value.id), Record):
             setattr(env[t.value.id], t.attr, v)
-        elif isinstance(t, ast.Attribute) and isinstance(self.expr(t.value, env), Record):
+        elif isinstance(t, ast.Attribute) and isinstance(self.expr(t.value, env), (Record,) + self.model_types):
             setattr(self.expr(t.value, env), t.attr, v)
         elif isinstance(t, ast.Subscript) and not isinstance(t.slice, ast.Slice):
             c = self.expr(t.value, env)
@@ -375,7 +396,7 @@ class Evaluator:
                     out.append(self.expr(e.elt, env2))
                     return
                 g = e.generators[i]
-                for v in list(self.expr(g.iter, env2)):
+                for v in self.iterate(self.expr(g.iter, env2), env2):
                     env3 = dict(env2)
                     self.assign(g.target, v, env3)
                     if all(self.truth(self.expr(c, env3)) for c in g.ifs):
@@ -386,7 +407,7 @@ class Evaluator:
         if isinstance(e, ast.DictComp):
             out = {}
             g = e.generators[0]
-            for v in list(self.expr(g.iter, env)):
+            for v in self.iterate(self.expr(g.iter, env), env):
                 env3 = dict(env)
                 self.assign(g.target, v, env3)
                 if all(self.truth(self.expr(c, env3)) for c in g.ifs):
@@ -466,6 +487,9 @@ class Evaluator:
             v = self.expr(e.value, env)
             if isinstance(v, Opaque):
                 return Opaque('item')
+            mem = self._dunder(v, env, '__getitem__')
+            if mem is not None and not isinstance(e.slice, ast.Slice):
+                return self.call_function(mem, [self.expr(e.slice, env)], {}, bound_self=v)
             if isinstance(e.slice, ast.Slice):
                 lo = self.expr(e.slice.lower, env) if e.slice.lower else None
                 hi = self.expr(e.slice.upper, env) if e.slice.upper else None
@@ -545,7 +569,12 @@ class Evaluator:
                 raise AnalysisError(f'call of unmodelled value {text(f)}')
             if isinstance(f, ast.Name):
                 if f.id == 'len':
+                    mem = self._dunder(args[0], env, '__len__')
+                    if mem is not None:
+                        return self.call_function(mem, [], {}, bound_self=args[0])
                     return len(args[0])
+                if f.id in ('list', 'tuple', 'sorted', 'set', 'enumerate', 'reversed', 'sum', 'any', 'all') and args and self._dunder(args[0], env, '__iter__') is not None:
+                    args = [self.iterate(args[0], env)] + args[1:]
                 if f.id == 'isinstance':
                     tn = text(e.args[1])
                     return {'str': isinstance(args[0], str), 'bytes': isinstance(args[0], bytes)}.get(tn, False)
@@ -577,7 +606,7 @@ class Evaluator:
                     return self.call_function(self._class_member(f.attr), args, kwargs, bound_self=recv)
                 if isinstance(f.value, ast.Name) and self.cls and f.value.id == self.cls and isinstance(self._class_member(f.attr), ast.FunctionDef):
                     return self.call_function(self._class_member(f.attr), args, kwargs)
-                if isinstance(recv, list) and f.attr in ('append', 'extend', 'sort', 'insert', 'pop', 'remove', 'reverse', 'clear', 'copy') or isinstance(recv, dict) and f.attr in ('update', 'copy', 'pop', 'setdefault', 'clear') or isinstance(recv, (set, frozenset)) and f.attr in ('add', 'discard', 'union', 'copy', 'intersection', 'difference', 'issubset', 'isdisjoint'):
+                if isinstance(recv, list) and f.attr in ('append', 'extend', 'sort', 'insert', 'pop', 'remove', 'reverse', 'clear', 'copy') or isinstance(recv, dict) and f.attr in ('update', 'copy', 'pop', 'setdefault', 'clear') or isinstance(recv, (set, frozenset)) and f.attr in ('add', 'discard', 'union', 'copy', 'intersection', 'difference', 'issubset', 'isdisjoint', 'update', 'remove', 'clear', 'issuperset'):
                     return getattr(recv, f.attr)(*args, **kwargs)
                 if self.model_types and isinstance(recv, self.model_types) and callable(getattr(recv, f.attr, None)):
                     return getattr(recv, f.attr)(*args, **kwargs)
